@@ -81,7 +81,13 @@ impl<R: Round, const B: Word> FBig<R, B> {
     /// assert_eq!(fract.precision(), 3);
     /// # Ok::<(), ParseError>(())
     /// ```
+    ///
+    /// # Panics
+    ///
+    /// Panics if the number is infinte
     pub fn split_at_point(self) -> (Self, Self) {
+        assert_finite(&self.repr);
+
         // trivial case when the exponent is positive
         if self.repr.exponent >= 0 {
             return (self, Self::ZERO);
